@@ -252,7 +252,8 @@ def _owner(hist, tier):
         return "hist"
     if nf <= MAXFAULT and len(hist) <= LC[tier] and _valid(hist, A_CORE):
         return "core"
-    if all(op[0] == "open" for op in hist[:-1]) and _nfaults(hist[:-1]) == 0 and _valid(hist, A_GRAPH):
+    if all(op[0] == "open" for op in hist[:-1]) and _nfaults(hist[:-1]) == 0 and _valid(hist, A_GRAPH) \
+            and not (tier == "quick" and len(hist) > NEST and hist[NEST - 1][2] == "explicit"):
         return "graph"
     return "cycles"
 
@@ -729,6 +730,7 @@ LINES = dict(
     FX="x float = 3 [foo]",
     EX="e float = (\"1 [len] + 2 cm\") cm",
     EN="f float = (\"2 cm + 3 cm\") cm",
+    EB="g float = (\"1 [len] + 2 s\") cm",
     CO="c float = 3 [len]\n  !condition (\"{?} > 1 [len]\")",
     CF="d float = 3 cm\n  !condition (\"{?} < 1 cm\")",
     MO="w = 8 cm",
@@ -743,11 +745,11 @@ LREQ = dict(
     UL=((), (), ("len",), (), True), UM=((), (), ("mas",), (), True), UV=(("len",), (), ("vel",), (), True),
     UL2=((), (), ("len",), (), True), UB=((), (), (), (), False),
     FW=(("len",), (), (), ("w",), True), NI=(("mas",), (), (), ("n",), True), FC=((), (), (), ("v",), True),
-    FX=((), (), (), (), False), EX=(("len",), (), (), ("e",), True), EN=((), (), (), ("f",), None),
+    FX=((), (), (), (), False), EB=((), (), (), (), False), EX=(("len",), (), (), ("e",), True), EN=((), (), (), ("f",), None),
     CO=(("len",), (), (), ("c",), True), CF=((), (), (), ("d",), None), MO=(("len",), ("w",), (), (), True),
     CA=(("len",), ("w",), (), ("a",), True), BE=(("len",), ("w",), (), ("b",), True),
 )
-LFEAT = dict(EX="numerical-expression", EN="numerical-expression-without-custom-unit", CO="condition", CA="case",
+LFEAT = dict(EX="numerical-expression", EB="numerical-expression-raises", EN="numerical-expression-without-custom-unit", CO="condition", CA="case",
              BE="logical-expression", MO="modification-converts", UV="unit-defined-from-custom-unit",
              NI="int-node", FW="float-node")
 
@@ -1000,6 +1002,8 @@ def _graph(prefix, tier, sh, seen):
         for h in frontier:
             st = tuple(op[1] for op in h)
             for op in _enabled(st, A_GRAPH):
+                if tier == "quick" and op[0] == "open" and len(st) == NEST - 1 and op[2] == "explicit":
+                    continue      # quick: innermost level as with-block only (explicit style is covered by hist)
                 r = _exec(h + (op,), sh, tier, "graph", seen)
                 sh.count("graph-op:" + op[0])
                 if op[0] == "open" and not _predict_fail(st, op) and len(prefix) == 2 and len(st) + 1 <= NEST:
@@ -1041,7 +1045,7 @@ MANIFEST = dict(
          "or fail inside the body - is applied in every reachable state with nesting <= 3; (hist) all un-pruned "
          "histories with <= 2 failing steps up to length 3 (quick) / 4 (thorough) over the full alphabet and 5 / 6 over "
          "a core alphabet, plus three repeated open/close cycles; (dip) every DIP line program up to 4 / 5 distinct "
-         "lines over 16 lines ($unit definitions that succeed/fail, float/int nodes, numerical and logical "
+         "lines over 17 lines ($unit definitions that succeed/fail, float/int nodes, numerical and logical "
          "expressions, !condition, @case, modification) at depth 0, inside unrelated and clashing Python scopes and "
          "continued in a second parse. On every transition: tables equal the scope-entry snapshot at every exit / "
          "failed construction / parse, pristine at depth 0, custom units usable inside and unknown outside.",
